@@ -1,4 +1,5 @@
 import Lemmas.Rev.Cycles
+import Lemmas.Rev.Bridge
 /-!
 # C15 — a history with a cycle is always rejected, an acyclic one never
 
@@ -117,6 +118,51 @@ never runs out of fuel (`C01.sort_total`, `C02.plan_of_set`). -/
 theorem closure_total (m : LMap) (targets : List Id) (x : Id) :
     x ∈ m.ancestors targets ↔ ∃ t ∈ targets, Reach m.normDownOf t x :=
   mem_ancestors_iff m targets x
+
+/-! ### the oracle `Spec.Rev.hasCycle` -/
+
+theorem reach_support {succ : Id → List Id} {a b : Id} (hr : Reach succ a b) :
+    ∃ S : List Id, a ∈ S ∧ b ∈ S ∧ ∀ x ∈ S, x = b ∨ ∃ q ∈ succ x, q ∈ S := by
+  induction hr with
+  | refl a => exact ⟨[a], by simp, by simp, by simp⟩
+  | @step a b' c hs _ ih =>
+    obtain ⟨S, h1, h2, h3⟩ := ih
+    refine ⟨a :: S, List.mem_cons_self, List.mem_cons_of_mem _ h2, ?_⟩
+    intro x hx
+    rcases List.mem_cons.mp hx with e | hxS
+    · subst e; exact Or.inr ⟨b', hs, List.mem_cons_of_mem _ h1⟩
+    · rcases h3 x hxS with e | ⟨q, hq, hqS⟩
+      · exact Or.inl e
+      · exact Or.inr ⟨q, hq, List.mem_cons_of_mem _ hqS⟩
+
+/-- **When the oracle says "cyclic" the history as written contains a directed cycle** of
+down-revision / dependency links (so the implementation must refuse it). -/
+theorem hasCycle_sound (h : Hist) (hc : Spec.Rev.hasCycle h = true) : HasCycle (parents h) (ids h) := by
+  unfold Spec.Rev.hasCycle at hc
+  simp only [List.any_eq_true, decide_eq_true_eq] at hc
+  obtain ⟨i, _, p, hp, hanc⟩ := hc
+  obtain ⟨r, hr, hreach⟩ := (mem_ancSet_iff h [p] i).mp hanc
+  simp only [List.mem_singleton] at hr
+  subst hr
+  obtain ⟨S, h1, h2, h3⟩ := reach_support hreach
+  have hsucc : ∀ x ∈ S, ∃ q ∈ parents h x, q ∈ S := by
+    intro x hx
+    rcases h3 x hx with e | h'
+    · subst e; exact ⟨r, hp, h1⟩
+    · exact h'
+  refine ⟨S, List.ne_nil_of_mem h1, fun x hx => ⟨?_, hsucc x hx⟩⟩
+  -- a revision with a prerequisite is a revision of the history
+  obtain ⟨q, hq, _⟩ := hsucc x hx
+  unfold parents at hq
+  cases hrev : revOf h x with
+  | none => simp [hrev] at hq
+  | some rv =>
+    unfold revOf at hrev
+    have hm := List.mem_of_find?_eq_some hrev
+    have he := List.find?_some hrev
+    simp only [beq_iff_eq] at he
+    unfold ids
+    exact List.mem_map.mpr ⟨rv, hm, he⟩
 
 /-! ### non-vacuity and the repaired defect -/
 
